@@ -2,6 +2,7 @@
 import copy
 import itertools
 import re
+import time
 
 from .. import budget, par, sweep, universe as U
 from ..inputs import small_example_games
@@ -159,6 +160,54 @@ def observe(game):
     return f
 
 
+def primer_for(game):
+    """a WELL-FORMED larger game that contains the malformed game's rows verbatim: the deviated game padded with absorbing
+    states until every (integer, non-negative) successor and final index is in range.  Only exists when being out of range
+    is the game's only defect; used to start the malformed game from a non-initial state of the process (validation must
+    not remember anything from an earlier, larger game)."""
+    try:
+        n = len(game["players"])
+        idx = [t[1] for row in game["transition_list"] for t in row] + list(game["final_states"])
+        if not idx or not all(isinstance(i, int) and not isinstance(i, bool) and i >= 0 for i in idx):
+            return None
+        m = max(idx)
+        if m < n or not (len(game["rewards"]) == n == len(game["transition_list"])):
+            return None
+        g = copy.deepcopy(game)
+        for k in range(n, m + 1):
+            g["players"].append(PR)
+            g["rewards"].append(0)
+            g["transition_list"].append([(1, k)])
+        return g
+    except (TypeError, IndexError, KeyError, AttributeError):
+        return None
+
+
+def solve_quietly(game):
+    for prune in (True, False):
+        def fn():
+            return tad.StochasticGame(prune_states=prune, **copy.deepcopy(game)).solve()
+        budget.run_budgeted(fn, cpu_s=0.3, confirm=False)
+
+
+def observe_after(history, game):
+    """solve the games of `history` first (same process), then the malformed game must still be rejected"""
+    for h in history:
+        solve_quietly(h)
+    f = []
+    for prune in (True, False):
+        def fn():
+            return tad.StochasticGame(prune_states=prune, **copy.deepcopy(game)).solve()
+        st, val = budget.run_budgeted(fn, cpu_s=1.0, max_lines=500_000)
+        if st == "exc" and isinstance(val, ValueError):
+            continue
+        what = "returned a result" if st == "ok" else ("did not terminate" if st == "diverged" else "raised %s: %s" % (type(val).__name__, val))
+        f.append(("C09/accepted-after-history", what, "ValueError",
+                  "after solving %d well-formed game(s) in the same process, solve(prune=%s) of the malformed game %s" % (len(history), prune, what)))
+        break
+    return f
+
+
 def observe_base(game):
     f = []
     for prune in (True, False):
@@ -187,9 +236,11 @@ def work(shard):
     for bi in range(shard["lo"], shard["hi"]):
         g = B[bi]
         out["bases"] += 1
+        t0 = time.time()
         for f in observe_base(g):
             out["n_violations"] += 1
             out["violations"].append(mk_case(g, [], f))
+        base_quick = (time.time() - t0) < 0.25 and len(g["players"]) <= 13
         devs = deviations(g)
         combos = [(d,) for d in devs]
         if shard["pairs"] and bi < shard["pair_bases"]:
@@ -208,7 +259,23 @@ def work(shard):
                 out["rules"][rule] = out["rules"].get(rule, 0) + 1
             else:
                 out["pairs"] += 1
-            for f in observe(x):
+            found = observe(x)
+            pr = primer_for(x) if (len(combo) == 1 and base_quick) else None
+            if pr is not None:
+                # the well-formed base was solved at the start of this shard; now a larger well-formed game containing
+                # the malformed game's rows is solved, and the malformed game must still be rejected afterwards
+                hist = [pr]
+                out["primed"] = out.get("primed", 0) + 1
+                out["executions"] += 4
+                for f in observe_after(hist, x):
+                    c = mk_case(x, labels, f)
+                    c["config"]["history"] = hist
+                    found.append(None)
+                    out["n_violations"] += 1
+                    if len([v for v in out["violations"] if v["klass"] == f[0]]) < 2:
+                        out["violations"].append(c)
+                found = [f for f in found if f is not None]
+            for f in found:
                 out["n_violations"] += 1
                 if len([c for c in out["violations"] if c["klass"] == f[0]]) < 2:
                     out["violations"].append(mk_case(x, labels, f))
@@ -225,7 +292,8 @@ def work(shard):
 RULE = ("bases: every k-th structure of the degree-2 sink universe, all small example inputs and one hand-written game with a 3-way state "
         "and repeated finals; deviation operators: one per documented rule at every position (state, transition, tuple slot), boundary "
         "values n and -1 included; bound: 0 deviations (must be accepted), all single deviations, all pairs on the smallest bases; both "
-        "pruning modes and the batch runner; every deviated game is distinct and non-trivial (each breaks a rule by construction)")
+        "pruning modes and the batch runner; every single deviation is also re-run after solving, in the same process, its well-formed "
+        "base and (for out-of-range indices) a larger well-formed game containing the same rows; every deviated game is distinct and non-trivial (each breaks a rule by construction)")
 ASSUME = ["oracle by construction: each operator breaks a documented rule; pairs that touch the same site (same list length, same "
           "slot, a row and one of its slots) can cancel or override each other and are not enumerated, every other pair leaves at least one rule broken",
           "values the rules do not mention (True as an index, None as a reward, a top-level None) are not in the alphabet"]
@@ -240,7 +308,8 @@ def run(ctx):
         raise par.HarnessError("C09 vacuity guard: %d single deviations" % tot["single"])
     cov = {"states": tot["games"], "transitions": tot["executions"], "traces_validated_against_impl": tot["games"],
            "evaluations": tot["games"], "distinct_nontrivial": tot["games"], "bases": tot["bases"],
-           "single_deviations": tot["single"], "deviation_pairs": tot["pairs"], "pairs_on_smallest_bases": pair_bases,
+           "single_deviations": tot["single"], "deviation_pairs": tot["pairs"],
+           "single_deviations_replayed_after_a_well_formed_primer_containing_their_rows": tot.get("primed", 0), "pairs_on_smallest_bases": pair_bases,
            "single_deviations_per_rule": tot["rules"], "rule": RULE, "exhaustive": not tot.get("truncated"),
            "samples": tot["samples"][:3]}
     return {"coverage": cov, "violations": tot["violations"], "assumptions": ASSUME}
@@ -248,6 +317,9 @@ def run(ctx):
 
 def replay(case):
     g = case["input"]
+    if case["config"].get("history"):
+        f = observe_after(case["config"]["history"], g)
+        return f[0][3] if f else None
     if not case["config"]["deviations"]:
         f = observe_base(g)
     else:
